@@ -904,7 +904,7 @@ class Hist:
             self.split = split = case.get("split", "svd")
             if split == "eig":
                 so["method"] = "eig"  # singular values from an eigen-decomposition: half the digits
-                self.tol_state, self.tol_norm = 1e-6, 1e-8
+                self.tol_state, self.tol_norm = 1e-5, 1e-8
             elif split == "qr":
                 so["method"] = "qr"
             elif split in ("abs", "rsum2"):
@@ -1410,10 +1410,10 @@ def s_tebdgen(draw, tier):
             # an explicit ordering may name a pair in either direction (a fifth of the cases: finding C11-b)
             "rev_pairs": draw(st.sampled_from([False, False, False, False, True])),
             "perm_seed": draw(st.integers(0, 10 ** 6)), "reflect": reflect,
-            "steps": 1 if reflect else draw(st.integers(1, 2)),
-            "taus": draw(st.lists(st.sampled_from([0.1, 0.05, 0.2]), min_size=1, max_size=2)),
+            "steps": draw(st.integers(1, 2 if reflect else 3)),
+            "taus": draw(st.lists(st.sampled_from([0.1, 0.05, 0.2]), min_size=1, max_size=2, unique=True)),
             "tau_form": draw(st.sampled_from(["ctor", "evolve", "list"])), "bond": draw(st.sampled_from([1, 2])),
-            "two_calls": draw(st.booleans())}
+            "two_calls": draw(st.sampled_from([False, False, True]))}
 
 
 def run_tebdgen(case):
@@ -1469,7 +1469,7 @@ def run_tebdgen(case):
         return psi
 
     ref_psi = p0.copy()
-    ncall = 2 if case["two_calls"] else 1
+    ncall = 2 if (case["two_calls"] and steps * (2 if case["reflect"] else 1) <= 2) else 1  # bonds double per gate
     total = 0
     err = 0.0
     for c in range(ncall):
@@ -1496,7 +1496,8 @@ def run_tebdgen(case):
         err = max(err, ee)
     return {"nt": len(terms) >= 2 and (total >= 2 or case["reflect"]),
             "cls": ["n=%d" % n, "nodes=" + case["nodes"], "ordering=" + case["ordering"], "reflect" if case["reflect"] else "plain",
-                    "tau=" + case["tau_form"], "h1=" + case["h1"], "sweeps=%d" % total] + (["rev-pairs"] if rev_pairs else []),
+                    "tau=" + case["tau_form"], "h1=" + case["h1"], "sweeps=%d" % total]
+            + (["tau-list-shorter-than-steps"] if case["tau_form"] == "list" and len(taus) < steps else []) + (["rev-pairs"] if rev_pairs else []),
             "err": max(e, err)}
 
 
